@@ -256,25 +256,34 @@ def make_run_fewer(W, shape):
     if ms is None:
         def term(t):
             return ("obj",) if t == shape["n"] else ("K", t)
-        call = {"next": "call_next(x)", "fnext": "F.next(x)"}[kind]
+        call = {"next": "call_next(x)", "fnext": "F.next(x)", "kwnext": "call_next(x, k=k)"}[kind]
         caller = (dict(pos=[("x", ("K", 0), False)], kw=[("k", ("obj",), False)], body=f"return ('via', {call})") if viakw
                   else dict(pos=[("x", ("K", 0), False), ("y", ("obj",), False)], body=f"return ('via', {call})"))
-        ms = _FEWMS[key] = MethodSet([caller, dict(pos=[("x", term(t1), False)], body="return ('ret', 1)"),
-                                      dict(pos=[("x", term(t2), False)], body="return ('ret', 2)")])
+        if kind == "kwnext":
+            # every method takes the keyword-only k; the caller (priority 1) hands x and k on: the step is the call f(x, k=k) without it
+            ms = _FEWMS[key] = MethodSet([dict(pos=[("x", ("K", 0), False)], kw=[("k", ("obj",), False)], body=f"return ('via', {call})"),
+                                          dict(pos=[("x", term(t1), False)], kw=[("k", ("obj",), False)], body="return ('ret', 1)"),
+                                          dict(pos=[("x", term(t2), False)], kw=[("k", ("obj",), False)], body="return ('ret', 2)")])
+        else:
+            ms = _FEWMS[key] = MethodSet([caller, dict(pos=[("x", term(t1), False)], body="return ('ret', 1)"),
+                                          dict(pos=[("x", term(t2), False)], body="return ('ret', 2)")])
 
     def run(ctx):
         def mk():
             hs, LOG, ns = ms.instantiate(W)
             ov = Ovld()
             for m in range(3):
-                ov.register(hs[m], priority=0)
+                if not (without_caller and m == 0):
+                    ov.register(hs[m], priority=(1 if (m == 0 and kind == "kwnext") else 0))
             ns["F"] = ov.dispatch
             return ov, LOG
+        without_caller = False
         ov, LOG = mk()
         a, b = W.inst[0], object()
-        got = full_outcome((lambda: ov.dispatch(a, k=b)) if viakw else (lambda: ov.dispatch(a, b)), LOG)
+        got = full_outcome((lambda: ov.dispatch(a, k=b)) if (viakw or kind == "kwnext") else (lambda: ov.dispatch(a, b)), LOG)
+        without_caller = kind == "kwnext"
         ref, LOG2 = mk()
-        fresh = full_outcome(lambda: ref.dispatch(a), LOG2)
+        fresh = full_outcome((lambda: ref.dispatch(a, k=b)) if kind == "kwnext" else (lambda: ref.dispatch(a)), LOG2)
         exp_chain = [0] + fresh[0]
         ok = got[0] == exp_chain and (got[1][0] == fresh[1][0]) and (got[1][0] != "ret" or got[1][1] == "('via', " + fresh[1][1] + ")")
         info = dict(family="delegation with fewer arguments", caller=("f(x: K0, *, k)" if viakw else "f(x: K0, y)"), delegation=kind,
@@ -503,6 +512,7 @@ def gen_shapes(tier, seed):
             fam_fact.append(dict(n=n, factory=True, methods=[dict(pos=[t], kind=k) for t, k in zip(mt, ks)], args=[0]))
     fam_few = [dict(n=n, fewer=[kind, t1, t2, viakw]) for kind in ("next", "fnext") for t1 in range(n + 1) for t2 in range(n + 1) if t1 != t2
                for viakw in (False, True)]
+    fam_few += [dict(n=n, fewer=["kwnext", t1, t2, True]) for t1 in range(n + 1) for t2 in range(n + 1) if t1 != t2]
     fam_cls = []
     for mt in itertools.product(range(n + 1), repeat=3):
         for ks in itertools.product(["ret", "next", "fnext"], repeat=3):
